@@ -227,6 +227,9 @@ func (w *worker[T, JobType]) WaitUntilFinished() {
 }
 
 func (w *worker[T, JobType]) Errs() <-chan error {
+	w.mx.RLock()
+	defer w.mx.RUnlock()
+
 	return w.errorChan
 }
 
@@ -400,7 +403,11 @@ func (w *worker[T, JobType]) goRemoveIdleWorkers() {
 }
 
 func (w *worker[T, JobType]) goListenToContext() {
-	if w.ctx == nil {
+	w.mx.RLock()
+	ctx := w.ctx
+	w.mx.RUnlock()
+
+	if ctx == nil {
 		return
 	}
 
@@ -418,13 +425,17 @@ func (w *worker[T, JobType]) goListenToContext() {
 		}
 
 		w.Stop()
-	}(w.ctx)
+	}(ctx)
 }
 
 // starts the event loop that processes pending jobs when workers become available
 // It continuously checks if the worker is running, has available capacity, and if there are jobs in the queue
 // When all conditions are met, it processes the next job in the queue
 func (w *worker[T, JobType]) goEventLoop() {
+	w.mx.RLock()
+	eventLoopSignal := w.eventLoopSignal
+	w.mx.RUnlock()
+
 	go func(signal <-chan struct{}) {
 		for range signal {
 			for w.IsRunning() && w.curProcessing.Load() < w.concurrency.Load() && w.queues.Len() > 0 {
@@ -433,7 +444,7 @@ func (w *worker[T, JobType]) goEventLoop() {
 				}
 			}
 		}
-	}(w.eventLoopSignal)
+	}(eventLoopSignal)
 }
 
 func (w *worker[T, JobType]) stopTickers() {
@@ -569,8 +580,12 @@ func (w *worker[T, JobType]) Stop() error {
 		return ErrNotRunningWorker
 	}
 
-	if w.cancel != nil {
-		defer w.cancel()
+	w.mx.RLock()
+	cancel := w.cancel
+	w.mx.RUnlock()
+
+	if cancel != nil {
+		defer cancel()
 	}
 	defer w.status.Store(stopped)
 
@@ -678,6 +693,9 @@ func (w *worker[T, JobType]) Resume() error {
 }
 
 func (w *worker[T, JobType]) Context() context.Context {
+	w.mx.RLock()
+	defer w.mx.RUnlock()
+
 	return w.ctx
 }
 
